@@ -111,7 +111,9 @@ impl SchedulerContext {
         // Publish invalidation before making the index claimable. Finality advances contiguously
         // and checks status plus this timestamp under transaction locks, so a validation predating
         // this rewind cannot enter the stable prefix afterward.
+        vpoint!(REWIND);
         let timestamp = self.logical_clock.fetch_add(1, Ordering::AcqRel);
+        vobs!(REWIND, index, timestamp, 0, 0);
         self.lower_timestamps[index].fetch_max(timestamp, Ordering::AcqRel);
         let previous = self.validation.rewind(index);
         if previous > index {
